@@ -231,3 +231,21 @@ Lemma unitarity_defect_4 x : T4 x * T4 (-x) == 1 + pw x 6 / 72 + pw x 8 / 576.
 Proof. unfold T4; cbn [pw]. field. Qed.
 Lemma unitarity_defect_6 x : T6 x * T6 (-x) == 1 + pw x 8 / 2880 + pw x 10 / 21600 + pw x 12 / 518400.
 Proof. unfold T6; cbn [pw]. field. Qed.
+
+(* ---------- the tensor index walk of the time-dependent propagation ---------- *)
+Lemma td_walk_repaired_in_range k indxR stride cutoff : (2 <= cutoff)%nat -> (indxR <= cutoff - 1)%nat ->
+  Forall (fun i => (i < cutoff)%nat) (td_walk WalkRepaired k indxR stride cutoff).
+Proof.
+  revert indxR; induction k as [|k IH]; intros indxR Hc Hi; cbn [td_walk]; constructor; [lia|].
+  apply IH; [exact Hc|]. unfold walk_next. apply Nat.le_min_r.
+Qed.
+(* below the cut-off the two rules walk the same way *)
+Lemma td_walk_same_below indxR stride cutoff : (1 <= stride)%nat -> (indxR + stride <= cutoff - 1)%nat ->
+  walk_next WalkPinned indxR stride cutoff = walk_next WalkRepaired indxR stride cutoff.
+Proof.
+  intros Hs H. unfold walk_next. rewrite (Nat.min_l _ _ H). destruct (Nat.ltb_spec indxR (cutoff - 1)); lia.
+Qed.
+(* the pinned rule leaves the tensor's index range as soon as the cut-off is reached (cut-off index 3, i.e. three
+   stored tensors 0,1,2: the fourth refined step asks for index 3) *)
+Lemma td_walk_pinned_witness : td_walk WalkPinned 4 1 1 3 = [1; 2; 3; 3]%nat /\ td_walk WalkRepaired 4 1 1 3 = [1; 2; 2; 2]%nat.
+Proof. split; reflexivity. Qed.
